@@ -50,6 +50,20 @@ CHECKS['C04'] = dict(
     text='Generated try/catch placements (module, functions with 0-4 parameters and locals, methods, initialisers, loops, nesting, native callbacks), every raise kind and catch filter and every way of leaving a try; all variables are unique integers printed after each try, compared with the reference model with a dynamic handler stack; an in-VM monitor checks every PushHandler depth against the live depth and that no handler of a frame is live at its Return.',
     note=_MODEL_NOTE, ref='DESIGN.md §2 C04')
 
+_SELF_NOTE = 'Self-differential: no reference model involved; assumes a crash-free baseline run of the same program (programs whose baseline crashes are owned by C16). Reaches only the allocation sites / call sites the corpus exercises; evidence lists collections, frees and cache events observed.'
+CHECKS['C05'] = dict(
+    technique='GC-schedule self-differential (hook-driven collection schedules vs collection disabled) with poisoning quarantine allocator, intern-table invariant hook and ASan underneath',
+    text='Every corpus program is run with collection disabled and under many collection schedules chosen through a hook (every allocation with stock/forced-full/alternating sweeps, every k-th, Bernoulli, single-point and multi-point schedules swept over the program allocation count, nursery-only on release, LIFO address reuse); outcome, stdout and error line must be identical. Freed blocks are poisoned and quarantined (write-after-free detected at eviction), the intern-table invariant is checked inside every collection, ASan and the NaN-boxed build join in the thorough tier.',
+    note=_SELF_NOTE, ref='DESIGN.md §2 C05')
+CHECKS['C13'] = dict(
+    technique='cache on/off self-differential via a cache-disable hook, under dense collection schedules with a LIFO address-reuse allocator',
+    text='Baseline forces every inline-cache lookup to miss; variants run with caches on in debug and release, also under collection at every allocation with an allocator that hands a freed block to the next same-size request (so a new class lands on the address of a collected one); workload: shared call sites with receiver-class sequences, classes created and dropped at run time, same-named classes with different layouts. Identical outcome/stdout required; cache hits, misses, fills and clears are counted by the hook.',
+    note=_SELF_NOTE, ref='DESIGN.md §2 C13')
+CHECKS['C14'] = dict(
+    technique='two-build self-differential (tagged enum vs NaN-boxed) + reference-model IEEE programs on both builds + Rust-level Value round-trip monitor',
+    text='All corpora run on both value representations and must agree on outcome/stdout/error line; IEEE-sensitive generated programs are additionally compared with the reference model on both builds; a Rust tool pushes >= 2*10^5 doubles reachable by arithmetic (incl. -0, infinities, NaNs, subnormals), bools, nil, undefined and objects through Value in each build, checks round trip / classification / equality / hashing and compares a digest across builds.',
+    note=_SELF_NOTE + ' Map iteration order legitimately differs between representations and is never observed by generated programs.', ref='DESIGN.md §2 C14')
+
 PENDING = {}
 
 
